@@ -571,7 +571,9 @@ func (OracleC27) Judge(w *World, b *BlockCtx, p *ProbeResult) {
 		// the gas price multiplies the table price BEFORE the conversion through the pool: selling g*p
 		// of the price coin returns strictly less than g times what selling p returns (constant product).
 		// Judged against the same transaction at gas price 1 on a fresh node over the same state.
-		if g := int64(m.GasPrice); g >= 2 && inBase != nil && p.Variant != nil {
+		// (base gas coin only: with a custom gas coin the tag reports what the fee swap really returned,
+		// which exceeds the converted price by round-trip rounding)
+		if g := int64(m.GasPrice); g >= 2 && inBase != nil && p.Variant != nil && m.GasCoin == 0 {
 			if alt := Resign(m, w.Sc.Gen.NAcct, func(tx *transaction.Transaction) bool { tx.GasPrice = 1; return true }); alt != nil {
 				if vr := p.Variant(alt, false); vr != nil && vr.Err == nil && vr.Resp.Code == 0 {
 					if in1, ok := new(big.Int).SetString(vr.Tags["tx.commission_in_base_coin"], 10); ok && in1.Sign() > 0 {
